@@ -8,7 +8,7 @@ for f in sorted(glob.glob("/verif/seeded/*/meta.json")):
     rows.append((name, m))
 head = """# Seeded property-breaking changes
 
-Each directory holds `patch.diff` (applies to /repo with `git -C /repo apply`), `demo.py` (the sub-agent's demonstration: exit 1 with the change, 0 without),
+Each directory holds `patch.diff` (applies to the final /repo tree with `git -C /repo apply`; where a later fix changed the context, the sub-agent's original is kept next to it as `patch.original.diff`), `demo.py` (the sub-agent's demonstration: exit 1 with the change, 0 without),
 `demo_with.log` / `demo_without.log` (my own re-run in the scratch worktree), and `meta.json`. The changes were written by fresh sub-agents that were given only the
 text of one property and a scratch worktree (rounds 2 and 3 additionally one-line descriptions of the earlier changes for that property, to be avoided); every change
 keeps the 464 baseline tests green (`tools/baseline.py <worktree>` -> missing=0). `tools/try_seed.sh <name> <PID>` applies a change to /repo, runs the quick check and
